@@ -112,7 +112,7 @@ impl Kernel {
             return false;
         }
         match p.state {
-            PState::PreExec => true,
+            PState::PreExec => p.preexec_wake.map(|u| self.now >= u).unwrap_or(true),
             PState::Sleeping { until } => self.now >= until,
             PState::Zombie { .. } | PState::Reaped => false,
             PState::Running => match self.next_call(pid) {
@@ -136,6 +136,7 @@ impl Kernel {
             .filter(|p| !p.stopped)
             .filter_map(|p| match p.state {
                 PState::Sleeping { until } => Some(until),
+                PState::PreExec => p.preexec_wake,
                 _ => None,
             })
             .min()
